@@ -32,6 +32,26 @@ claimed = {
    text="Charts with many hooks (all events, negative/equal weights, Job/Pod/ConfigMap, all delete-policy subsets) across install/upgrade/rollback/uninstall histories with left-over hook objects; every single hook is made to fail in turn (sweep) and at random; the ordered request log and waiter log are checked for weight/name order, one-at-a-time execution, before-hook-creation deletes, policy-driven deletion, the pre-hook gate on release resources, post-hook failure failing the operation, and disabled hooks.",
    note="Hook outcomes are scripted through the waiter stub; atomic operations are excluded (their internal rollback/uninstall fire further events). Expected hooks come from the generator's own chart description, not from Helm's parser.",
    technique="deterministic simulation: scripted hook outcomes, every hook failing in turn; ordered request-log oracle"),
+ "C09": dict(level="exploration", design="§6 C09, §3.3",
+   text="Groups of two (uniform and PCT schedules) and three (PCT, bounded preemptions) concurrent install / install --replace / upgrade (with and without history limit) on one release, from an empty, deployed or uninstalled history, as separate processes on Secret/ConfigMap storage and sharing one memory driver; the scheduler interleaves them at every storage and cluster call. The oracle rebuilds the timeline of record writes and checks one creator per revision, losers failing with the documented errors without touching any release resource, no creation while another operation's revision is pending, and ledger well-formedness at quiescence. A second population runs the same groups in a -race build in co-release mode (answers computed serially, goroutines released together so that no happens-before edge hides Helm's own races).",
+   note="Race reports are classified by the packages of the two accesses and the backend; which conflicting pair the detector reports first depends on real timing, so a race replay is accepted when the same class reappears within four attempts. Logic verdicts of the race tier are ignored (judged in the deterministic tier).",
+   technique="deterministic simulation: seeded + PCT interleavings at storage/cluster-call granularity; race detector under co-release scheduling"),
+ "C10": dict(level="exploration", design="§6 C10",
+   text="Seeded sequences of up to 30 driver calls (create/get/update/delete/list/query) over a small key space with generated releases (unicode, large manifests, nested values, hooks, timestamps with zones, user labels, names with dots, '.v', digits, maximum length) are executed on the memory, Secret and ConfigMap drivers - the latter two through the real client-go stack on the simulated API server - and compared call by call with a reference map and across backends; a fault population rejects, drops or loses the response of individual API calls and demands failure without corruption.",
+   note="Equality is on the JSON projection of the release plus user labels (subchart objects hang off an unexported field and are not representable in a stored record). Query keys are the four the statement names.",
+   technique="deterministic simulation: model-based comparison against a reference map on three backends, API-call fault injection"),
+ "C13": dict(level="exploration", design="§6 C13",
+   text="Chains of 2-7 upgrades and rollbacks with every value flag, generated value trees (nesting, nulls, type changes), chart defaults changing between versions and failed upgrades in between (so that the deployed revision is not the last one); the recorded Config of each new revision is compared with a reference computed straight from the statement, and the values templates actually saw are read from a probe ConfigMap.",
+   note="Null-valued keys are stripped on both sides of the Config comparison; the effective-values clause is judged only on trees without nulls and without table/scalar conflicts (their resolution is not part of the statement).",
+   technique="deterministic simulation: multi-step histories with injected failures; reference value model"),
+ "C14": dict(level="exploration", design="§6 C14",
+   text="install / upgrade (reset, reuse, reset-then-reuse onto a chart version whose schema rejects the carried values) / helm-template-shaped installs whose final values violate, by construction, one rule of the root chart's or an enabled/disabled/aliased subchart's schema, with and without skip-schema-validation; the oracle demands an error naming the chart, an empty mutating-request log and an untouched store, and no rejection when the schema is satisfied, the subchart is disabled, or validation is skipped.",
+   note="Schema semantics are only exercised for a constructed family (type, required, enum, minimum/maximum, additionalProperties) where validity is known by construction; lint is not run.",
+   technique="deterministic simulation: request-log and storage-log oracle in front of a constructed schema family"),
+ "C20": dict(level="exploration", design="§6 C20 (storage slice)",
+   text="Stored release records are damaged between steps of a history (bit flip, truncation, zero fill, garbage, base64 of non-gzip, JSON null/array/object without info, missing data key) on the Secret and ConfigMap backends; history, list, get, status, get values, upgrade, rollback and uninstall then run against the damaged store. Every operation runs under a recover guard (panic = violation), the scheduler's step budget owns 'no hang', and History must keep returning every undamaged record.",
+   note="Only the fault-shaped part of C20 is claimed: corrupted stored records. Byte-level mutation of charts, values, --set strings, index files, plugin manifests is input fuzzing without any schedule, clock or fault and is out of this technique (DESIGN §7).",
+   technique="deterministic simulation: stored-record corruption as an injected disk fault between operations"),
 }
 pending = {}
 na = {
